@@ -89,6 +89,8 @@ pub enum AmtSel {
     InRange(u64),
     Rand63(u64, bool),
     Small(u16, bool),
+    /// (cb - mb) / 2: afterwards both hidden balances coincide (or differ by one)
+    Equalize,
 }
 
 impl AmtSel {
@@ -117,6 +119,7 @@ impl AmtSel {
             }
             AmtSel::Rand63(r, p) => s(p, (*r >> 1) as i128),
             AmtSel::Small(v, p) => s(p, *v as i128),
+            AmtSel::Equalize => (cb as i128 - mb as i128) / 2,
         }
     }
     pub fn label(&self) -> &'static str {
@@ -133,6 +136,7 @@ impl AmtSel {
             AmtSel::InRange(_) => "random-in-range",
             AmtSel::Rand63(..) => "random-63-bit",
             AmtSel::Small(..) => "small",
+            AmtSel::Equalize => "(cb-mb)/2",
         }
     }
     pub fn is_boundary(&self) -> bool {
@@ -153,6 +157,7 @@ pub fn amt_sel() -> impl Strategy<Value = AmtSel> {
         1 => Just(AmtSel::FillCustomer),
         8 => any::<u64>().prop_map(AmtSel::InRange),
         1 => (any::<u64>(), any::<bool>()).prop_map(|(r, p)| AmtSel::Rand63(r, p)),
+        3 => Just(AmtSel::Equalize),
         3 => (any::<u16>(), any::<bool>()).prop_map(|(r, p)| AmtSel::Small(r, p)),
     ]
 }
@@ -411,6 +416,14 @@ impl<'a> Chan<'a> {
             return Ok(());
         }
         if from_customer {
+            // a group element never occurs twice inside one message either (response scalars of linked
+            // slots coincide by design, group elements do not)
+            for (i, a) in atoms.iter().enumerate() {
+                if (a.len() == 48 || a.len() == 96) && atoms[..i].iter().any(|e| e == a) {
+                    self.rec.eval(1);
+                    return Err(fail(&self.o, &format!("message-repeats-a-group-element/{}", kind), format!("{} contains the same group element twice", kind)));
+                }
+            }
             for a in &atoms {
                 if *a == self.cid_bytes {
                     continue; // the channel id is disclosed by design
@@ -787,6 +800,9 @@ pub fn run_hist(h: &Hist, o: Opts, w: &mut World, rec: &Rec) -> Result<Value, Fa
         let new_mb = ch.mb as i128 + amt;
         let in_range = new_cb >= 0 && new_cb <= MAXB as i128 && new_mb >= 0 && new_mb <= MAXB as i128;
         rec.class(&format!("amount/{}/{}", p.amount.label(), if in_range { "in-range" } else { "out-of-range" }));
+        if in_range && new_cb == new_mb {
+            rec.class("payment-leaves-equal-balances");
+        }
 
         let s = ch.next_seed();
         let ready_bytes = wire::enc(&ready);
